@@ -686,8 +686,8 @@ impl<'c, 's> Run<'c, 's> {
                     Some("set-eid-length")
                 } else if r[13] != ss && r[13] != sq {
                     Some("set-eid-current-eid")
-                } else if r[14] != 0 || r[12] & 0xCC != 0 {
-                    Some("set-eid-status-or-pool")
+                } else if r[14] != 0 {
+                    Some("set-eid-pool-size")
                 } else {
                     None
                 }
@@ -697,8 +697,6 @@ impl<'c, 's> Run<'c, 's> {
                     Some("get-eid-length")
                 } else if r[12] != ss && r[12] != sq {
                     Some("get-eid-current-eid")
-                } else if r[13] & 0xCC != 0 || r[14] & 0xFE != 0 {
-                    Some("get-eid-type-bits")
                 } else {
                     None
                 }
